@@ -360,7 +360,154 @@ def check_C05():
     cov["rule"] = "racing get-or-create / compute calls on one key under random schedules incl. tables prefilled to the grow threshold (retry after a resize); user-function invocations counted per call; sequential fn counts compared with the table model across grow thresholds"
     return ctx.finish(cov, ["map-level interleavings are searched, not yet proved (C03/C04)"])
 
-CHECKS = {"C02": check_C02, "C05": check_C05, "C10": check_C10, "C11": check_C11, "C01": check_C01, "C12": check_C12, "C09": check_C09, "C06": check_C06, "C07": check_C07,
+def xcorr_part(ctx, pid, cov, sets, select=None):
+    """CORR-sched, exact part: the schedule the controlled scheduler followed on the real
+    MapOf code is replayed on the extracted XMachine, step by step (thread, primitive,
+    value class, enabled set), with results, user-function calls, final size and layout"""
+    from . import sched, xcorr
+    tools, log = sched.build(ctx)
+    exe, olog = ctx.ocaml()
+    if not all(tools.values()) or not exe:
+        ctx.violation("build-xcorr", dict(broken=["CORR-sched step correspondence (does not build)"], log=(log + str(olog))[-1500:]),
+                      failing_input=False, what="the scratch copy or the extracted machine no longer builds")
+        return
+    xrun = os.path.join(os.path.dirname(exe), "xrun")
+    n, bad, skipped = xcorr.run(ctx, tools, xrun, sets)
+    mine = [b for b in bad if select is None or select(b)]
+    cov["step_correspondence"] = dict(schedules_replayed_on_XMachine=n, skipped_unmodelled=skipped, mismatches=len(bad), mismatches_for_this_property=len(mine))
+    cov["traces_validated_against_impl"] = cov.get("traces_validated_against_impl", 0) + n
+    for i, (sc, r, why) in enumerate(mine[:2]):
+        ctx.violation("xcorr-%d" % i,
+                      dict(correspondence="CORR-sched (step by step against XMachine)",
+                           broken=["CORR-sched: XMachine no longer replays the implementation: " + why],
+                           scenario=sc, failing_op=json.dumps((sc or {}).get("threads"))[:400],
+                           how_to_replay="echo '<scenario with trace:true>' | verifsched ; bin/vlib/xcorr.py model_case | _build/ocaml/xrun"),
+                      failing_input=False, what="the machine the theorems are about no longer describes the code: " + why[:160])
+
+def _x_sets(ctx, n):
+    return [("MapOf_int", n, ["-hasher", "const", "-prefill", "125"]), ("MapOf_int", n, ["-hasher", "sameidx"]),
+            ("MapOf_str", n, ["-prefill", "121"]), ("MapOf_int", n, ["-threads", "4", "-ops", "4", "-sched", "mix"])]
+
+def solo_part(ctx, pid, cov):
+    from . import sched, solo
+    tools, log = sched.build(ctx)
+    if not all(tools.values()):
+        ctx.violation("build-sched", dict(broken=["CORR-sched (does not build)"], log=log[-1500:]), failing_input=False,
+                      what="the rewritten scratch copy, the scheduler driver or the checker no longer builds")
+        return
+    scen = solo.gen(ctx.tier)
+    by = {sc["id"]: sc for sc in scen}
+    rows, err = sched.run_scenarios(tools, "\n".join(json.dumps(x) for x in scen) + "\n")
+    if rows is None:
+        ctx.violation("solo-run", dict(broken=["CORR-sched run failed (solo scenarios)"], log=err), failing_input=False)
+        return
+    bad, notlin, dist = [], [], {}
+    for sc, res, lc in rows:
+        if sc is None:
+            continue
+        key = "%s%s" % (sc["container"], "/" + sc["hasher"] if sc.get("hasher") else "")
+        dist[key] = dist.get(key, 0) + 1
+        why = solo.judge(sc, res)
+        if why:
+            bad.append((sc, res, why))
+        elif lc.get("linearizable") is False:
+            notlin.append((sc, res, lc))
+    cov["solo_reader_scenarios"] = len(rows)
+    cov["schedules_run"] = cov.get("schedules_run", 0) + len(rows)
+    cov["traces_validated_against_impl"] = cov.get("traces_validated_against_impl", 0) + len(rows)
+    cov["solo_distribution"] = dist
+    cov["solo_failures"] = len(bad)
+    for i, (sc, res, why) in enumerate(bad[:3]):
+        ctx.violation("solo-%d" % i,
+                      dict(correspondence="CORR-sched", scenario={k: v for k, v in sc.items() if k != "setup" or len(v) < 12},
+                           failing_op="writer %s frozen at %s ; reader %s" % (json.dumps(sc["threads"][0][0]), sc.get("note"), json.dumps(sc["threads"][1][0])),
+                           observed=why, solo={k: v for k, v in (res.get("solo") or {}).items() if k != "b_labels"},
+                           how_to_replay="echo '<scenario>' | verifsched   (solo-after chooser; see harness/README.md)"),
+                      failing_input=True, what=why[:200])
+    for i, (sc, res, lc) in enumerate(notlin[:2]):
+        ctx.violation("solo-lin-%d" % i,
+                      dict(correspondence="CORR-sched", scenario={k: v for k, v in sc.items() if k != "setup" or len(v) < 12}, checker=lc, history=res.get("history"),
+                           failing_op="writer %s frozen at %s ; reader %s" % (json.dumps(sc["threads"][0][0]), sc.get("note"), json.dumps(sc["threads"][1][0]))),
+                      failing_input=True, what="the value the reader returned while the writer was frozen is not explained by any linearization")
+
+def reentrant_scenarios():
+    """Range / Items visitors that call back into the same container (delete, store, insert, clear), alone and against a writer"""
+    out, n = [], 0
+    for cont in ("Map", "MapOf_int", "MapOf_str", "Cache", "CacheOf_int", "CacheOf_str"):
+        cache = cont.startswith("Cache")
+        st = (lambda k, v: {"op": "Set", "k": k, "v": v, "d": -2000000000}) if cache else (lambda k, v: {"op": "Store", "k": k, "v": v})
+        for nkeys in (3, 40, 130):
+            setup = [st(k, 100 + k) for k in range(1, nkeys + 1)]
+            for vis in ("del", "store:7", "ins:5000", "clear", "stop:2"):
+                for other in (None, st(2, 999), {"op": "Delete", "k": 3}, {"op": "Clear"}):
+                    for seed in (1, 2, 3):
+                        n += 1
+                        threads = [[{"op": "Range", "visitor": vis}]] + ([[other]] if other else [])
+                        out.append(dict(id="re_%d" % n, container=cont, setup=setup, threads=threads,
+                                        sched={"kind": "random", "seed": seed}, layout=False, max_steps=200000))
+                        if other is None:
+                            break
+    return out
+
+def check_C13():
+    ctx = Ctx("C13"); cov = {}
+    broken = proof_part(ctx, "props/C13.v", ["proofs/X_basic.v", "proofs/X_inv.v", "proofs/X_c13.v", "proofs/X_inst.v", "XMachine.v"], cov)
+    n = N(ctx, 1200, 20000)
+    sched_part(ctx, "C13", cov, [("Map", n, ["-prefill", "73", "-clear", "40"]), ("MapOf_int", n, ["-hasher", "const", "-prefill", "125", "-clear", "40"]),
+                                 ("MapOf_str", n, ["-prefill", "121"]), ("Map", n, ["-threads", "4", "-ops", "4", "-sched", "mix"]),
+                                 ("MapOf_int", n, ["-hasher", "sameidx", "-threads", "4", "-ops", "4", "-sched", "pct"]),
+                                 ("Cache", n, []), ("CacheOf_int", n, []), ("CacheOf_str", n // 2, ["-sched", "pct"])])
+    # visitors that re-enter the container
+    from . import sched
+    tools, _ = sched.build(ctx)
+    if all(tools.values()):
+        scen = reentrant_scenarios()
+        rows, err = sched.run_scenarios(tools, "\n".join(json.dumps(x) for x in scen) + "\n")
+        nbad = 0
+        for sc, res, lc in (rows or []):
+            if (res or {}).get("outcome") != "done":
+                nbad += 1
+                if nbad <= 2:
+                    ctx.violation("reentrant-%d" % nbad, dict(correspondence="CORR-sched", scenario={k: v for k, v in (sc or {}).items() if k != "setup"},
+                                  failing_op=json.dumps((sc or {}).get("threads"))[:300], observed=(res or {}).get("outcome"), panic=(res or {}).get("panic")),
+                                  failing_input=True, what="a visitor that calls back into its container: outcome %s" % (res or {}).get("outcome"))
+        cov["reentrant_visitor_scenarios"] = len(rows or [])
+        cov["schedules_run"] = cov.get("schedules_run", 0) + len(rows or [])
+    def sel(b):
+        why = b[2]
+        return any(x in why for x in ("Lock", "Unlock", "Wait", "Broadcast", "Gosched", "en=", "extra steps", "no such step", "crashed"))
+    xcorr_part(ctx, "C13", cov, _x_sets(ctx, N(ctx, 250, 4000)), sel)
+    if broken and not ctx.violations:
+        ctx.violation("proof", dict(broken=broken), failing_input=False, what="proof obligation no longer checks")
+    cov["rule"] = "theorems over every reachable state of XMachine (MapOf) for every schedule; the machine is replayed step by step against the real code (enabled sets included, so a lock that is not released or a waiter that is not woken shows as a difference); on all six containers: random / PCT schedules with tables at the grow threshold and Clear, outcome deadlock / step budget / panic is a violation; Range and Items visitors that delete, store, insert and clear re-entrantly"
+    return ctx.finish(cov, ["PARTIAL: fair termination of each single call (no starvation by endless resizes) is not a theorem; searched with step budgets",
+                            "PARTIAL: the Map (string) variant's spin lock is covered by the schedule search and the sequential model, not by XMachine",
+                            "evicted callbacks re-entering the cache are not generated by the scheduler driver (callbacks log only); that they run after the map call returned is C06"])
+
+def check_C16():
+    ctx = Ctx("C16"); cov = {}
+    broken = proof_part(ctx, "props/C16.v", ["proofs/X_basic.v", "proofs/X_inv.v", "proofs/X_c13.v", "proofs/X_c16.v", "proofs/X_inst.v", "XMachine.v"], cov)
+    solo_part(ctx, "C16", cov)
+    def sel(b):
+        sc, r, why = b
+        if "step" not in why or sc is None:
+            return "crashed" in why
+        # the differing step belongs to a thread that is executing a read-only call, or a load became something else
+        import re
+        m = re.search(r"implementation \[S (\d+) (\S+)", why)
+        if not m:
+            return True
+        tid, kind = int(m.group(1)), m.group(2)
+        ops = [o["op"] for o in (sc.get("threads") or [[]])[tid]] if tid < len(sc.get("threads") or []) else []
+        return bool(ops) and all(o in ("Load", "Size") for o in ops)
+    xcorr_part(ctx, "C16", cov, _x_sets(ctx, N(ctx, 250, 4000)), sel)
+    if broken and not ctx.violations:
+        ctx.violation("proof", dict(broken=broken), failing_input=False, what="proof obligation no longer checks")
+    cov["rule"] = "theorem: in every reachable state of XMachine a thread on the read path is enabled and, run alone, leaves it within rd_bound of its own steps, loads only. On the real code (all containers, MapOf also with colliding hashers): a writer is frozen inside its user function, after each of its first K atomic/lock operations (Store, insert, Delete, LoadAndDelete, Clear, DeleteExpired) or K steps into a grow, then the reader (Load/Get/GetWithExpiration/GetWithTTL of the same key, bucket mates, other and absent keys, hit path of LoadOrStore/LoadOrCompute, Size/Count) runs alone and must finish using loads only; the full history must be linearizable"
+    return ctx.finish(cov, ["PARTIAL: XMachine models MapOf; the Map variant (value/key/value snapshot retry) is covered by the frozen-writer runs on the real code, its retry loop is not bounded by a theorem",
+                            "expired entries are excluded (the property is about present-and-unexpired or absent keys): cache scenarios use NoExpiration"])
+
+CHECKS = {"C13": check_C13, "C16": check_C16, "C02": check_C02, "C05": check_C05, "C10": check_C10, "C11": check_C11, "C01": check_C01, "C12": check_C12, "C09": check_C09, "C06": check_C06, "C07": check_C07,
           "C08": check_C08, "C15": check_C15}
 
 def replay(pid, path):
